@@ -104,11 +104,16 @@ PROPS["C15"] = dict(
     bounds="decoders: every byte string of 0..=24 bytes (ext. keepalive decoder 0..=40; REG predicates 256..=260), symbolic length and bytes, "
            "all 65536 type codes; NAK differential: 0..=16 bytes with ranges <= 3 wide, singles 0..=24 bytes; builders: every argument value, <= 4 ACK numbers",
     stubs=[],
-    assumptions=["smallvec::SmallVec modelled as an array-backed sequence in the Kani build"],
-    outside="byte strings of 25..1500 bytes (the decoder loops are uniform in the length; not covered by the bound); "
-            "NAK ranges wider than 3 entries, and therefore the 1000-entry expansion cap itself: the 1000-fold unrolling of the expansion "
-            "loop nested in the list loop did not finish in CBMC (OOM at 14 GB even with a count-only push and a per-loop unwindset); "
-            "the harnesses c15_nak_*_cap are kept in the source but not registered",
+    assumptions=["smallvec::SmallVec modelled as an array-backed sequence in the Kani build",
+                 "SMT engine: slice length < 2^63 (Rust guarantee: isize::MAX), SmallVec::{new,len,push} = abstract counter, MIR as emitted by the "
+                 "pre-installed nightly (rustc 1.97) with overflow checks on"],
+    outside="Kani harnesses: byte strings of 25..1500 bytes and NAK ranges wider than 3 entries are outside their bound (the 1000-fold "
+            "unrolling of the expansion loop nested in the list loop exhausts CBMC's memory). That gap is closed FOR THE COUNT AND PANIC-FREEDOM "
+            "CLAUSES ONLY by the second engine (smt/nakcap.py: MIR of parse_srt_nak / parse_srtla_ack -> bit-vector VCs, loops cut at their heads, "
+            "z3): 'no MIR assert can fail, at most 1000 range-expanded entries, at most one single entry per 4 bytes' for byte strings of EVERY "
+            "length < 2^63 and every range width. Element VALUES of NAK lists beyond 16 bytes / 3-wide ranges, and of the other list decoders "
+            "beyond 24 bytes, remain outside the claim. In the SMT engine SmallVec is an abstract length counter and the packet-type test in "
+            "the prologue is an unconstrained boolean (over-approximation).",
     harnesses=[
         H("c15::c15_fixed_decoders_24", "proto", desc="type/seq/retransmit/REG3/keepalive ts/SRT ACK vs reference decoder", bounds="len 0..=24"),
         H("c15::c15_conn_info_decoder_40", "proto", desc="extended keepalive decoder vs literal offsets", bounds="len 0..=40"),
@@ -119,6 +124,12 @@ PROPS["C15"] = dict(
         H("c15::c15_build_reg1_reg2", "proto", desc="REG1/REG2 builders: 258 bytes, type + id"),
         H("c15::c15_build_keepalives", "proto", desc="keepalive builders round-trip, literal layout"),
         H("c15::c15_build_ack", "proto", desc="SRTLA ACK builder round-trip", bounds="<= 4 numbers"),
+        H("smt::nak_cap_all_lengths", "smt", script="nakcap.py", args=["--fn", "parse_srt_nak"],
+          desc="MIR->SMT: parse_srt_nak never panics, <= 1000 range-expanded entries, <= 1 single entry per 4 bytes",
+          bounds="every byte string of length < 2^63 (inductive cut-point VCs: no unrolling bound); 64-bit usize"),
+        H("smt::srtla_ack_count_all_lengths", "smt", script="nakcap.py", args=["--fn", "parse_srtla_ack"],
+          desc="MIR->SMT: parse_srtla_ack never panics, <= 1 entry per 4 bytes",
+          bounds="every byte string of length < 2^63 (inductive cut-point VCs); 64-bit usize"),
     ],
 )
 
@@ -263,6 +274,9 @@ PROPS["C02"] = dict(
         H("c02::c02_cumulative_ack_step_mid", "core", desc="cumulative ACK == set model for any mark/ack spacing (fast and slow path)", env={"VERIF_MAP_CAP": "4"}, timeout=1500),
         H("c02::c02_nak_and_srtla_ack_step_mid", "core", desc="NAK / SRTLA ACK retire exactly the held number; otherwise untouched", env={"VERIF_MAP_CAP": "4"}),
         H("c02::c02_reset_step_mid", "core", desc="resets retire everything", env={"VERIF_MAP_CAP": "4"}),
+        H("c02::c02_take_batch_step_mid", "core", desc="flush of two data packets in any order relative to each other and to the ACK mark: both outstanding, INV re-established", env={"VERIF_MAP_CAP": "4"}),
+        H("c02::c02_take_batch_step_low", "core", tier="thorough", desc="same, low window", env={"VERIF_MAP_CAP": "4"}),
+        H("c02::c02_take_batch_step_high", "core", tier="thorough", desc="same, high window", env={"VERIF_MAP_CAP": "4"}),
         H("c02::c02_ack_order_independent_mid", "core", tier="thorough", desc="ACK a;b == ACK max(a,b)", env={"VERIF_MAP_CAP": "4"}, timeout=3000),
         H("c02::c02_history_4_mid", "core", tier="thorough", desc="4-event history vs set model", env={"VERIF_MAP_CAP": "4"}, timeout=3000),
     ],
@@ -292,7 +306,7 @@ PROPS["C01"] = dict(
     functions=["BatchSender::{new, queue_packet, drain, reset, needs_time_flush, has_queued_packets, queued_count, set_regime, regime}",
                "BatchRegime::{from_bps, batch_size}", "SrtlaConnection::{queue_data_packet, take_batch, register_packet, stall_probe_due}",
                "BitrateTracker::update_on_send"],
-    bounds="sequences of exactly n datagrams, n in {0,1,2,4,5} (quick) + {16,17,32,33} (thorough), each of 1..4 symbolic bytes with symbolic "
+    bounds="sequences of exactly n datagrams, n in {0,1,2,4,5} (quick) + {16,17} (thorough; 32 / 33 datagrams produce solver errors after 7 min and are not registered), each of 1..4 symbolic bytes with symbolic "
            "sequence number and queue time, regime concrete per instance (all three occur, below / at / one past the threshold); flush predicates at depths {0,3,15} (+{20,31}); take_batch with 3 queued datagrams; "
            "probe counter any value 0..99",
     stubs=[],
@@ -321,9 +335,6 @@ PROPS["C01"] = dict(
         H("c01::c01_fifo_16_normal", "core", tier="thorough", desc="same", bounds="exactly 16 datagrams, regime normal", timeout=3000),
         H("c01::c01_fifo_17_normal", "core", tier="thorough", desc="same", bounds="exactly 17 datagrams, regime normal (one past)", timeout=3000),
         H("c01::c01_fifo_17_low", "core", tier="thorough", desc="same", bounds="exactly 17 datagrams, regime low activity", timeout=3000),
-        H("c01::c01_fifo_32_high", "core", tier="thorough", desc="same", bounds="exactly 32 datagrams, regime high load", timeout=3000),
-        H("c01::c01_fifo_33_high", "core", tier="thorough", desc="same", bounds="exactly 33 datagrams, regime high load (one past)", timeout=3000),
-        H("c01::c01_fifo_33_normal", "core", tier="thorough", desc="same", bounds="exactly 33 datagrams, regime normal", timeout=3000),
     ],
 )
 
